@@ -52,9 +52,27 @@ theorem items_spec (t : TNode τ α) (h : Wf t) (q : List τ) (v : α) :
     (q, v) ∈ t.items ↔ t.get q = some v :=
   mem_items t h q v
 
-/-- `prefixes()` lists every stored key once (hence so do `items()` and `values()`) -/
+/-- `prefixes()` (the stack generator of trie_dict.py:145-158) lists every stored key once -/
 theorem items_nodup (t : TNode τ α) (h : Wf t) : t.prefixes.Nodup :=
-  nodup_items_keys t h
+  nodup_prefixes t h
+
+/-- **the three generators.**  `items()`, `prefixes()` and `values()` are three independent
+explicit-stack loops in trie_dict.py (130-172) and three independent definitions in the model
+(`itemsLoop`, `prefixesLoop`, `valuesLoop`, run for `size t` iterations).  For EVERY trie
+(no invariant needed): `items()` yields a permutation of the pre-order listing `t.items` — so
+the loop visits every node once and the fuel `size t` is enough —, and `prefixes()` /
+`values()` yield the first / second components of what `items()` yields, in the same order. -/
+theorem generators_spec (t : TNode τ α) :
+    t.itemsIter.Perm t.items ∧
+    t.prefixes = t.itemsIter.map Prod.fst ∧
+    t.values = t.itemsIter.map Prod.snd :=
+  ⟨itemsIter_perm t, prefixes_eq t, values_eq t⟩
+
+/-- `items()` (the generator) is exactly the graph of `get`, every pair once -/
+theorem itemsIter_spec (t : TNode τ α) (h : Wf t) :
+    (∀ q v, (q, v) ∈ t.itemsIter ↔ t.get q = some v) ∧ t.itemsIter.Nodup := by
+  refine ⟨fun q v => by rw [(itemsIter_perm t).mem_iff, mem_items t h], ?_⟩
+  exact (itemsIter_perm t).nodup_iff.2 (nodup_of_nodup_keys (nodup_items_keys t h))
 
 /-- `len()` is the number of stored keys, the empty key included -/
 theorem len_spec (t : TNode τ α) (h : Wf t) : t.len = t.items.length := by
@@ -108,16 +126,71 @@ theorem history_refines (ops : List (List τ × α)) (q : List τ) :
     (run ops).get q = child (specRun ops) q :=
   (refines_run ops).2.1 q
 
-/-- after any history, `len` is the number of keys of the dictionary -/
-theorem history_len (ops : List (List τ × α)) : (run ops).len = (specRun ops).length :=
-  (refines_run ops).2.2
+/-- the dictionary built by a history has pairwise distinct keys … -/
+theorem specRun_nodup (ops : List (List τ × α)) : (keys (specRun ops)).Nodup := by
+  unfold specRun
+  suffices H : ∀ (m : Spec τ α), (keys m).Nodup →
+      (keys (ops.foldl (fun m kv => setChild m kv.1 kv.2) m)).Nodup from H [] (by simp [keys])
+  induction ops with
+  | nil => intro m h; exact h
+  | cons op ops ih => intro m h; exact ih _ (nodup_keys_setChild m op.1 op.2 h)
 
-/-- after any history, `items()` is the graph of the dictionary, each key once -/
+/-- … and holds, for every key, the value of the LATEST assignment to that key in the history
+(`none` when the key was never assigned): `specRun` really is "the keys assigned so far with
+their latest values" -/
+theorem specRun_latest (ops : List (List τ × α)) (q : List τ) :
+    child (specRun ops) q = (ops.reverse.find? (fun kv => kv.1 = q)).map Prod.snd := by
+  unfold specRun
+  suffices H : ∀ (m : Spec τ α), child (ops.foldl (fun m kv => setChild m kv.1 kv.2) m) q
+      = ((ops.reverse.find? (fun kv => kv.1 = q)).map Prod.snd).or (child m q) by
+    simpa using H []
+  induction ops with
+  | nil => intro m; simp
+  | cons op ops ih =>
+    intro m
+    simp only [List.foldl_cons, ih, child_setChild, List.reverse_cons, List.find?_append]
+    cases ops.reverse.find? (fun kv => kv.1 = q) with
+    | some x => simp
+    | none =>
+      by_cases h : op.1 = q
+      · simp [h]
+      · have h' : ¬ q = op.1 := fun e => h e.symm
+        simp [h, h']
+
+/-- after any history, `len` is the number of keys of the dictionary, which are pairwise
+distinct: `len` is the number of DISTINCT keys assigned so far -/
+theorem history_len (ops : List (List τ × α)) :
+    (run ops).len = (specRun ops).length ∧ (keys (specRun ops)).Nodup :=
+  ⟨(refines_run ops).2.2, specRun_nodup ops⟩
+
+/-- after any history, `items()` (the stack generator, `__iter__` too) yields exactly the
+pairs of the dictionary, each once: a permutation of it -/
 theorem history_items (ops : List (List τ × α)) :
-    (∀ q v, (q, v) ∈ (run ops).items ↔ child (specRun ops) q = some v) ∧
-    (run ops).prefixes.Nodup := by
+    (run ops).itemsIter.Perm (specRun ops) ∧
+    (∀ q v, (q, v) ∈ (run ops).itemsIter ↔ child (specRun ops) q = some v) := by
   have h := refines_run ops
-  exact ⟨fun q v => by rw [items_spec _ h.1, h.2.1], items_nodup _ h.1⟩
+  have hs := itemsIter_spec _ h.1
+  have hmem : ∀ q v, (q, v) ∈ (run ops).itemsIter ↔ child (specRun ops) q = some v :=
+    fun q v => by rw [hs.1, h.2.1]
+  refine ⟨?_, hmem⟩
+  rw [List.perm_ext_iff_of_nodup hs.2 (nodup_of_nodup_keys (specRun_nodup ops))]
+  rintro ⟨q, v⟩
+  rw [hmem, mem_iff_child _ (specRun_nodup ops)]
+
+/-- after any history, `prefixes()` (its own stack loop) yields exactly the keys of the
+dictionary, each once -/
+theorem history_prefixes (ops : List (List τ × α)) :
+    (run ops).prefixes.Perm (keys (specRun ops)) ∧ (run ops).prefixes.Nodup := by
+  refine ⟨?_, items_nodup _ (refines_run ops).1⟩
+  rw [prefixes_eq]
+  exact (history_items ops).1.map _
+
+/-- after any history, `values()` (its own stack loop) yields exactly the values of the
+dictionary, with multiplicity (one per key) -/
+theorem history_values (ops : List (List τ × α)) :
+    (run ops).values.Perm ((specRun ops).map Prod.snd) := by
+  rw [values_eq]
+  exact (history_items ops).1.map _
 
 /-- after any history, the longest-prefix lookup is the longest-prefix lookup of the
 dictionary -/
@@ -134,7 +207,17 @@ example :
       [(["a", "b"], some 1), ([], none), (["a"], some 2), (["a", "b"], some 3)]
     (run ops).len = 3 ∧ (run ops).get [] = some none ∧ (run ops).get ["a", "b"] = some (some 3)
       ∧ (run ops).get ["b"] = none ∧ (run ops).lmpv ["a", "b", "c"] = some (some 3)
-      ∧ (run ops).lmpv ["b"] = some none := by
+      ∧ (run ops).lmpv ["b"] = some none
+      ∧ (run ops).itemsIter = [([], none), (["a"], some 2), (["a", "b"], some 3)]
+      ∧ (run ops).prefixes = [[], ["a"], ["a", "b"]]
+      ∧ (run ops).values = [none, some 2, some 3]
+      ∧ specRun ops = [(["a", "b"], some 3), ([], none), (["a"], some 2)] := by
+  decide
+
+/-- the stack order is not the pre-order: the LAST child is popped first -/
+example :
+    let ops : List (List String × Nat) := [(["a"], 1), (["b"], 2), (["a", "c"], 3)]
+    (run ops).values = [2, 1, 3] ∧ (run ops).items.map Prod.snd = [1, 3, 2] := by
   decide
 
 end Ural.Props.C10
